@@ -215,13 +215,13 @@ def cases(tier, seed):
                     if not q or (nx, ny) in ((2, 2), (3, 2), (2, 3), (1, 3), (3, 1), (3, 3)):
                         out.append(Case("CORRELATION:cross:%s:nx=%d:ny=%d:norm=%s" % ('cx' if cplx else 're', nx, ny, norm),
                                         case_correlation, dict(nx=nx, ny=ny, cplx=cplx, norm=norm, auto=False)))
-            for n in range(1, maxn + 1):
-                for norm in NORMS:
-                    for auto in (True, False):
-                        if norm == 'coeff' and not auto:
-                            continue
-                        out.append(Case("xcorr:%s:%s:n=%d:norm=%s" % ('auto' if auto else 'cross', 'cx' if cplx else 're', n, norm),
-                                        case_xcorr, dict(n=n, cplx=cplx, norm=norm, auto=auto)))
+        for n in range(1, maxn + 1):
+            for norm in NORMS:
+                for auto in (True, False):
+                    if norm == 'coeff' and not auto:
+                        continue
+                    out.append(Case("xcorr:%s:%s:n=%d:norm=%s" % ('auto' if auto else 'cross', 'cx' if cplx else 're', n, norm),
+                                    case_xcorr, dict(n=n, cplx=cplx, norm=norm, auto=auto)))
         for n in range(2, (4 if q else 5) + 1):
             for m in range(1, min(n - 1, 2 if q else 3) + 1):
                 out.append(Case("corrmtx:gram:%s:n=%d:m=%d" % ('cx' if cplx else 're', n, m), case_corrmtx_gram,
